@@ -123,7 +123,9 @@ def main():
         print(("REPRODUCED: " if p else "NOT-REPRODUCED: ") + (p[0] if p else "results pipeline scenario passes"))
         sys.exit(1 if p else 0)
     violations, cases = [], 0
-    for seed in range(40):
+    import os
+
+    for seed in range(200 if os.environ.get('VERIF_TIER') == 'thorough' else 40):
         rnd = random.Random(seed)
         cases += 1
         try:
